@@ -36,6 +36,9 @@ CONFIGS = [
     # the faults then hit the child process (the interposer is inherited), which gives up with a non-zero status
     {"kind": "ssd", "fs": "ext4", "threads": None, "transform": "in_out_dd", "no_copy": True},
     {"kind": "hdd", "fs": "ext4", "threads": ["default:3,3"], "transform": "in_cat", "no_copy": True},
+    # a transform fed through a pipe whose process dies from a signal on about half of the files after 64 bytes of output:
+    # those files are "not read completely" already in the fault-free run and must be left out, with a warning
+    {"kind": "ssd", "fs": "ext4", "threads": None, "transform": "killodd"},
 ]
 
 # with "inputs": "stdin" the same files are handed over as a list of directories and single files on standard input
@@ -145,7 +148,8 @@ def file_table(troot, cfg=None):
     scanned = gm.scan_plain(roots_abs)
     if cfg and cfg.get("skip_content_hash"):
         return {p: {"key": coarse_key(p), "id": fid} for p, fid in scanned.items()}
-    return {p: {"key": gm.file_key(p, {}), "id": fid} for p, fid in scanned.items()}
+    return {p: {"key": gm.file_key(p, {"transform": cfg["transform"]} if cfg and cfg.get("transform") == "killodd" else {}), "id": fid}
+            for p, fid in scanned.items()}
 
 
 def restrict(groups, dontcare, files, singles=False):
@@ -186,6 +190,20 @@ def run_case(arg):
         if rep.partition() != full:
             return [violation("C15:baseline-differs", "fault-free run differs from the reference partition",
                               {"cfg": cfg, "diff": gm.describe_partition_diff(full, rep.partition())})]
+        if cfg.get("transform") == "killodd":
+            # every file whose transform process was killed is named by a warning (one path per inode suffices)
+            errt = res.err_text()
+            by_id = {}
+            for p_, rec in files.items():
+                if rec["key"] is None:
+                    by_id.setdefault(rec["id"], []).append(os.path.basename(p_).decode("utf-8", "replace"))
+            silent = [names for names in by_id.values() if not any(n in errt for n in names)]
+            if not by_id:
+                return [inconclusive("the transform was killed on no file of this scenario")]
+            if silent:
+                return [violation("C15:baseline:killed-transform-without-warning",
+                                  "no warning names %s although its transform process died from a signal" % silent[0],
+                                  {"cfg": cfg, "stderr": errt[-1500:]})]
         ev, _, _ = shimlog.parse(log)
         counts = {}
         for e in ev:
@@ -212,7 +230,7 @@ def run_case(arg):
                 continue  # probes for ignore files etc.
             for nth in range(1, n + 1):
                 for en in ERRNOS:
-                    if op == "open" and cfg.get("transform"):
+                    if op == "open" and cfg.get("no_copy"):
                         # counters are per process: the n-th open of p fails in fclones (only its extent query opens
                         # files here) and in the transform child alike. Which path of a hard-linked file the child is
                         # given is not determined, so those are left out.
@@ -224,7 +242,7 @@ def run_case(arg):
                         specs.append((p, "open-" + kind, nth, en, None))
                     else:
                         specs.append((p, op, nth, en, None))
-        if not cfg.get("transform"):
+        if not cfg.get("no_copy"):
             # persistent faults: every stat / open / read of one file fails (a file that stays unreadable, as opposed to
             # a single failing call)
             for p in sorted(files):
